@@ -31,6 +31,15 @@ def load_frozen():
 class _Canon(ast.NodeTransformer):
     def visit_Call(self, node):
         self.generic_visit(node)
+        # f(a, **{"k": v})  ->  f(a, k=v)      (literal string keys that are identifiers)
+        if any(k.arg is None and isinstance(k.value, ast.Dict) for k in node.keywords):
+            kws = []
+            for k in node.keywords:
+                if k.arg is None and isinstance(k.value, ast.Dict) and k.value.keys and all(isinstance(x, ast.Constant) and isinstance(x.value, str) and x.value.isidentifier() for x in k.value.keys):
+                    kws += [ast.keyword(arg=x.value, value=v) for x, v in zip(k.value.keys, k.value.values)]
+                else:
+                    kws.append(k)
+            node.keywords = kws
         fn = ast.unparse(node.func)
         if fn in UFUNC_OPS and len(node.args) == 2 and not node.keywords:
             return ast.copy_location(ast.BinOp(node.args[0], UFUNC_OPS[fn](), node.args[1]), node)
@@ -402,6 +411,43 @@ def inline_new_locals(fn, known, pure=frozenset()):
             changed = progress = True
         if not progress:
             break
+    return changed
+
+
+def sink_uses_of_new_locals(fn, known):
+    """if c: ...; v = A  else: ...; v = B ; S(v)    ->    S moved into both arms      (v a NEW local whose only use is S, directly after the if)
+    Prepares the inlining of v; moving S into the arms never changes behaviour (it runs after either arm anyway)."""
+    params = {a.arg for n in ast.walk(fn) if isinstance(n, ast.arguments) for a in n.posonlyargs + n.args + n.kwonlyargs}
+    changed = False
+    for node in ast.walk(fn):
+        for field in ("body", "orelse", "finalbody"):
+            b = getattr(node, field, None)
+            if not isinstance(b, list):
+                continue
+            i = 0
+            while i < len(b) - 1:
+                s, t = b[i], b[i + 1]
+                if isinstance(s, ast.If) and s.orelse and isinstance(t, (ast.Assign, ast.Expr, ast.Return)) and not isinstance(s.body[-1], (ast.Return, ast.Raise, ast.Continue, ast.Break)) \
+                        and not isinstance(s.orelse[-1], (ast.Return, ast.Raise, ast.Continue, ast.Break)):
+                    used = {n.id for n in ast.walk(t) if isinstance(n, ast.Name) and isinstance(n.ctx, ast.Load)}
+                    cands = [v for v in used if v not in known and v not in params]
+                    ok = False
+                    for v in cands:
+                        in_body = any(isinstance(x, ast.Assign) and len(x.targets) == 1 and isinstance(x.targets[0], ast.Name) and x.targets[0].id == v for x in s.body)
+                        in_else = any(isinstance(x, ast.Assign) and len(x.targets) == 1 and isinstance(x.targets[0], ast.Name) and x.targets[0].id == v for x in s.orelse)
+                        total = sum(1 for n in ast.walk(fn) if isinstance(n, ast.Name) and n.id == v and isinstance(n.ctx, ast.Load))
+                        here = sum(1 for n in ast.walk(t) if isinstance(n, ast.Name) and n.id == v and isinstance(n.ctx, ast.Load))
+                        if in_body and in_else and total == here:
+                            ok = True
+                    if ok:
+                        s.body.append(copy.deepcopy(t))
+                        s.orelse.append(copy.deepcopy(t))
+                        del b[i + 1]
+                        changed = True
+                        continue
+                i += 1
+    if changed:
+        ast.fix_missing_locations(fn)
     return changed
 
 
@@ -838,9 +884,12 @@ def normalise(rel, tree, frozen, pure=frozenset(), sigs=None):
         k = set(known.get(q, [])) if q in known else None
         if k is None:
             continue
-        if inline_new_locals(fn, k, pure):
+        sunk = sink_uses_of_new_locals(fn, k)
+        if inline_new_locals(fn, k, pure) or sunk:
             info["inlined_locals"].append(q)
             inl = True
+            _Canon().visit(fn)  # e.g. f(**{"k": v}) left behind by an inlined keyword dict
+            ast.fix_missing_locations(fn)
     if inl:
         guided_pass("b")
         for q, fn in function_table(tree).items():
